@@ -32,7 +32,11 @@ class CachingStreamWrapper(io.IOBase):
 
     def peek(self, n):
         result = self.read(n)
-        self._cache.seek(-len(result), os.SEEK_CUR)
+
+        if result:
+            self._cache.seek(-len(result), os.SEEK_CUR)
+
+        # (None: the source has nothing to give at the moment)
         return result
 
     def seekable(self):
